@@ -160,16 +160,47 @@ class OrderedSimSet(set):
     """A set whose iteration order is a permutation chosen by the simulator (keyed by
     element *name*, so identical in every process whatever the addresses are)."""
 
-    order_seed = 0  # process-global, set per run by install_set_order
+    order_seed = 0  # process-global, set per run by set_order_seed
 
     def __iter__(self):
-        items = list(set.__iter__(self))
         seed = OrderedSimSet.order_seed
+        c = self.__dict__.get("_cache")
+        if c is not None and c[0] == seed and c[1] == len(self):
+            return iter(c[2])
+        items = list(set.__iter__(self))
         if seed == 0:
             items.sort(key=type_key)
         else:
             items.sort(key=lambda e: hashlib.sha256(f"{seed}:{type_key(e)}".encode()).digest())
+        self.__dict__["_cache"] = (seed, len(items), items)
         return iter(items)
+
+    def _inval(self):
+        self.__dict__.pop("_cache", None)
+
+    def add(self, x):
+        self._inval()
+        return set.add(self, x)
+
+    def discard(self, x):
+        self._inval()
+        return set.discard(self, x)
+
+    def remove(self, x):
+        self._inval()
+        return set.remove(self, x)
+
+    def update(self, *a):
+        self._inval()
+        return set.update(self, *a)
+
+    def clear(self):
+        self._inval()
+        return set.clear(self)
+
+    def pop(self):
+        self._inval()
+        return set.pop(self)
 
     def union(self, *others):
         return OrderedSimSet(set.union(self, *others))
@@ -544,3 +575,40 @@ def installed_pool(ctx, clock=None):
                 setattr(obj, name, val)
         SimPool.ctx = None
         SimPool.clock = None
+
+
+# ------------------------------------------------------------------ step caps on genotype-backed sources
+
+_CAP = {"limit": 0, "count": 0}
+
+
+def install_gene_read_cap():
+    """Bounded liveness for genotype mapping: every read of a genotype-backed RandomSource
+    (GE ListWrapper, SGE StructuredListWrapper, stack ListWrapper) is a step; beyond the cap a
+    SimStepCap (BaseException) unwinds the mapper deterministically."""
+    from .core import SimStepCap
+    from geneticengine.representations.grammatical_evolution import ge, structured_ge
+    from geneticengine.representations import stackgggp
+
+    for cls in (ge.ListWrapper, structured_ge.StructuredListWrapper, stackgggp.ListWrapper):
+        if getattr(cls, "_sim_capped", False):
+            continue
+        orig = cls.randint
+
+        def randint(self, *a, __orig=orig, **k):
+            _CAP["count"] += 1
+            if _CAP["limit"] and _CAP["count"] > _CAP["limit"]:
+                raise SimStepCap("gene reads")
+            return __orig(self, *a, **k)
+
+        cls.randint = randint
+        cls._sim_capped = True
+
+
+def reset_gene_read_cap(limit):
+    _CAP["limit"] = limit
+    _CAP["count"] = 0
+
+
+def gene_reads():
+    return _CAP["count"]
